@@ -84,7 +84,7 @@ type respRun struct {
 var httpStatus = []string{"s200", "s201", "s204", "s299", "s301", "s304", "s400", "s404", "s418", "s429", "s500", "s503", "s599"}
 var httpNet = []string{"badstatus", "badheader", "hugeheader", "closebefore", "closeduring"}
 var httpBody = []string{"trunc", "badchunk"}
-var httpOdd = []string{"early", "empty", "big", "notjson", "nothtml", "shorthdr", "nohdr"}
+var httpOdd = []string{"early", "empty", "big", "notjson", "jsonarr", "nothtml", "shorthdr", "nohdr"}
 var allPosts = []string{"none", "jsonpath", "header_substr", "xpath", "assert", "all"}
 
 func postsYAML(p string) string {
@@ -181,7 +181,7 @@ func planAll(mixes int, rnd *rand.Rand, h2 bool) []respPlan {
 		plans = append(plans, respPlan{gun: "http/scenario", posts: "all", letters: repeat(l, shots)})
 	}
 	for _, p := range []string{"none", "jsonpath", "header_substr", "xpath", "assert"} {
-		for _, l := range []string{"s200", "s204", "s500", "empty", "notjson", "nothtml", "shorthdr", "nohdr", "trunc", "closebefore", "big"} {
+		for _, l := range []string{"s200", "s204", "s500", "empty", "notjson", "jsonarr", "nothtml", "shorthdr", "nohdr", "trunc", "closebefore", "big"} {
 			if l == "big" && p != "jsonpath" && p != "xpath" {
 				continue
 			}
